@@ -866,6 +866,33 @@ fn tag_case(c: &TagCase) -> Outcome {
     Outcome::pass_with(known, vec![if known { "known-tag" } else { "unknown-tag" }])
 }
 
+/// Fuzz entry: raw frame bytes through both decoders and both versions, with the differential
+/// against the harness's own codec in-target.
+pub fn fuzz_decode(data: &[u8]) -> Outcome {
+    dec_case(&DecCase { base: None, raw: data.to_vec(), edits: vec![], cache_cap: 4 })
+}
+
+pub fn fuzz_decode_seeds() -> Vec<Vec<u8>> {
+    let k = [7u8; 32];
+    let pk = key(&k);
+    let mut seeds = vec![];
+    for tag in [4u8, 5, 6, 7] {
+        let mut v = vec![tag];
+        v.extend_from_slice(pk.as_bytes());
+        v.push(1);
+        if tag % 2 == 1 { v.extend_from_slice(&[0, 3]); }
+        v.extend_from_slice(b"hello world");
+        seeds.push(v);
+    }
+    let mut gone = vec![8u8]; gone.extend_from_slice(pk.as_bytes()); seeds.push(gone);
+    seeds.push(vec![9, 1, 2, 3, 4, 5, 6, 7, 8]);
+    seeds.push(vec![10, 1, 2, 3, 4, 5, 6, 7, 8]);
+    seeds.push([&[11u8][..], b"problem"].concat());
+    seeds.push(vec![12, 0, 0, 0, 5, 0, 0, 0, 9]);
+    seeds.push(vec![13, 1]);
+    seeds
+}
+
 pub fn run(ctx: &Ctx) {
     ctx.rule("roundtrip: every message type of both directions (datagram contents dense within +-4 of 65501/65503/65536 and small, segment size None/1/len-1/len/len+1/65535/random, ecn 0..3, health strings of ASCII/2/3/4-byte characters with lengths around 65535/65536, restarting durations over u32 ms, status 0..255) in both protocol versions and with key caches of capacity 0/1/4; exact bytes against an own encoder; non-trivial = payload within 4 bytes of a size limit");
     ctx.rule("decode: encodings of generated messages with 0..3 edits (flip, truncate, insert, resize payload to lengths around 8/32/33/35/65536, overwrite tag, overwrite key with valid/invalid/non-canonical candidates, widen the tag varint) and raw byte strings, through both decoders and both versions, compared with an own decoder written from the frame documentation; non-trivial = edited input that a decoder accepts");
@@ -879,4 +906,5 @@ pub fn run(ctx: &Ctx) {
     ctx.explore("decode", ExploreOpts::new(150_000 * k), dec_strategy, dec_case);
     ctx.explore("client_sink", ExploreOpts::new(4_000 * k).workers(4), sink_strategy, sink_case);
     let _ = FrameType::Ping;
+    ctx.fuzz_campaign("c10_decode", ctx.tier.pick(0, 2_000_000), 300, fuzz_decode_seeds(), &fuzz_decode);
 }
